@@ -243,7 +243,11 @@ impl CanonicalRequest {
                         }
                     };
 
-                    query_parameters.extend(query_string_to_normalized_map(body_query.as_str())?);
+                    // Append the body parameters to the URL parameters. (HashMap::extend would replace the URL values
+                    // of any parameter name that also occurs in the body.)
+                    for (key, values) in query_string_to_normalized_map(body_query.as_str())? {
+                        query_parameters.entry(key).or_default().extend(values);
+                    }
                     // Rebuild the parts URI with the new query string.
                     let qs = canonicalize_query_to_string(&query_parameters);
                     trace!("Rebuilding URI with new query string: {}", qs);
